@@ -2,6 +2,7 @@ package drv
 
 import (
 	"bytes"
+	"crypto/sha256"
 	"encoding/json"
 	"expvar"
 	"fmt"
@@ -141,14 +142,20 @@ func runC13(c *Ctx) {
 		ncases = 400
 	}
 	cases := c13Cases(c, ncases)
-	// sequential references, computed before any concurrency starts
-	for _, cs := range cases {
+	// sequential references, computed before any concurrency starts — in an order that differs
+	// from process to process, so that every process gives each history a different prior
+	// process history; the digests are compared ACROSS processes by the orchestrator
+	order := Rng(c.Seed, fmt.Sprintf("c13order/%s/%d", mode, c.Shard)).Perm(len(cases))
+	for _, oi := range order {
+		cs := cases[oi]
 		b, msg := cs.runWriter(rand.New(rand.NewSource(1)), nil)
 		if msg != "" {
 			c.Out.Inconclusive(fmt.Sprintf("history %s fails sequentially (a C01 matter): %s", cs.ID, msg))
 			return
 		}
 		cs.Ref = b
+		dg := sha256.Sum256(b)
+		c.Out.SetAdd("history_digests", fmt.Sprintf("%s=%x", cs.ID, dg[:10]))
 		if m := cs.runReader(nil); m != "" {
 			c.Out.Inconclusive(fmt.Sprintf("history %s does not read back sequentially (a C01 matter): %s", cs.ID, m))
 			return
